@@ -35,13 +35,14 @@ const modPrefix = "github.com/apmckinlay/gsuneido"
 const simPkg = "verifsim/simrt"
 
 var importSwap = map[string][2]string{ // path -> {new path, default name}
-	"sync":         {simPkg + "/simsync", "sync"},
-	"sync/atomic":  {simPkg + "/simatomic", "atomic"},
-	"math/rand/v2": {simPkg + "/simrand", "rand"},
-	"math/rand":    {simPkg + "/simrandv1", "rand"},
-	"crypto/rand":  {simPkg + "/simcrand", "rand"},
-	"hash/maphash": {simPkg + "/simmaphash", "maphash"},
-	"log":          {simPkg + "/simlog", "log"},
+	"sync":                   {simPkg + "/simsync", "sync"},
+	"sync/atomic":            {simPkg + "/simatomic", "atomic"},
+	"math/rand/v2":           {simPkg + "/simrand", "rand"},
+	"math/rand":              {simPkg + "/simrandv1", "rand"},
+	"crypto/rand":            {simPkg + "/simcrand", "rand"},
+	"hash/maphash":           {simPkg + "/simmaphash", "maphash"},
+	"log":                    {simPkg + "/simlog", "log"},
+	"golang.org/x/time/rate": {simPkg + "/simrate", "rate"},
 }
 
 type stats struct {
